@@ -151,6 +151,8 @@ class Scheduler:
         self.mon.set_events(TOOL, self.mon.events.LINE)
         self._installed = True
 
+    SITE_HITS = 3
+
     def uninstall(self):
         if self._installed:
             self.mon.set_events(TOOL, 0)
@@ -173,6 +175,13 @@ class Scheduler:
         i = self._tids.get(threading.get_ident())
         if i is None:
             return None
+        # each static site offers a preemption at its first SITE_HITS dynamic occurrences per thread only: loops over shared
+        # state do not multiply the schedule space (stated in the evidence)
+        key = (i, code.co_filename, line)
+        n = self._hits.get(key, 0)
+        if n >= self.SITE_HITS:
+            return None
+        self._hits[key] = n + 1
         # scheduling point: hand control to the controller and wait for the baton
         self._at[i] = (os.path.basename(code.co_filename), line)
         self._ctl.release()
@@ -188,6 +197,7 @@ class Scheduler:
         self._ctl = threading.Semaphore(0)
         self._at = [None] * n
         self._tids = {}
+        self._hits = {}
         results: list = [None] * n
         done = [False] * n
 
@@ -217,7 +227,12 @@ class Scheduler:
                     break
                 if current is not None and current in enabled:
                     order = [current] + [i for i in enabled if i != current]
-                    k = ch.choose(len(order), f"sched@{self._at[current]}", weight=1) if len(order) > 1 else 0
+                    if steps > max_steps:
+                        # horizon: beyond it no preemption is offered any more (the running thread keeps the baton); counted, not fatal
+                        k = 0
+                        self.horizon_hits = getattr(self, "horizon_hits", 0) + (1 if steps == max_steps + 1 else 0)
+                    else:
+                        k = ch.choose(len(order), f"sched@{self._at[current]}", weight=1) if len(order) > 1 else 0
                 else:
                     order = enabled
                     # the running thread finished (or nothing ran yet): picking another one is free
@@ -229,8 +244,8 @@ class Scheduler:
                 if not self._ctl.acquire(timeout=60):
                     raise HarnessError(f"thread {nxt} did not reach a scheduling point within 60 s (hang or real blocking)")
                 steps += 1
-                if steps > max_steps:
-                    raise HarnessError("schedule horizon exceeded")
+                if steps > 200 * max_steps:
+                    raise HarnessError("schedule does not terminate (livelock between the threads?)")
         finally:
             self.active = False
             # let any straggler finish (only on harness error)
